@@ -116,6 +116,12 @@ def gen_table(rng, n=None, time=None, nan=False, inf=False):
         out['t_unit'] = 'ns'
     if time and rng.random() < 0.4:
         out['ex_time'] = 'early'
+    if rng.random() < 0.1:
+        # a narrow integer column whose squares do not fit its own type (pandas computes variances in float64)
+        dt = rng.choice(['int8', 'int16', 'int32'])
+        lo = {'int8': 90, 'int16': 150, 'int32': 50000}[dt]
+        out['y'] = [lo + v * {'int8': 5, 'int16': 9, 'int32': 1700}[dt] for v in out['y']]
+        out['y_dtype'] = dt
     if rng.random() < 0.2:
         out['g_cat'] = True         # the key column g is categorical and declares categories that never occur
     return out
@@ -131,7 +137,7 @@ def table_df(tab):
     else:
         idx = pd.RangeIndex(n)
     return pd.DataFrame({'x': np.array([np.nan if v is None else float(v) for v in tab['x']], dtype='float64'),
-                         'y': np.array(tab['y'], dtype='int64'),
+                         'y': np.array(tab['y'], dtype=tab.get('y_dtype', 'int64')),
                          'g': (pd.Categorical(list(tab['g']), categories=['a', 'b', 'c', 'd', 'zy', 'zz', 'never'])
                                if tab.get('g_cat') else pd.array(list(tab['g']), dtype='str')),
                          'h': np.array(tab['h'], dtype='int64')}, index=idx)
@@ -234,7 +240,12 @@ def _half(v):
     return v / 2
 
 
-FUNCS = {'double': _double, 'sq': _sq, 'half': _half}
+def _nanflag(v):
+    # a labelling function: its value for a missing observation is not "missing" (unless the caller asks to skip those)
+    return 1.0 if v != v else float(v) * 0.0 + 2.0
+
+
+FUNCS = {'double': _double, 'sq': _sq, 'half': _half, 'nanflag': _nanflag}
 
 
 def _mp_head1(d):
@@ -326,6 +337,8 @@ def ev(node, root, sz):
     if t == 'un':
         return UN[node[1]](ev(node[2], root, sz))
     if t == 'map':
+        if len(node) > 3 and node[3]:
+            return ev(node[2], root, sz).map(FUNCS[node[1]], na_action=node[3])
         return ev(node[2], root, sz).map(FUNCS[node[1]])
     if t == 'round':
         return ev(node[1], root, sz).round(node[2])
